@@ -283,7 +283,9 @@ def observe(ctx, s, model, universe, cls):
         raise Mismatch('len', 'len %d, model %d' % (len(s), len(model)))
     if bool(s) != bool(model):
         raise Mismatch('len', 'truth value %s on %r' % (bool(s), model))
-    for x in universe:
+    for x in tuple(universe) + (None, ('marker', 0), '', False if 0 not in model else None):
+        # (False == 0: probed only while 0 is not a member; None and the others are never members - an empty set holds
+        # nothing at all)
         if (x in s) != (x in model):
             raise Mismatch('membership', '%r in s is %s, model %r' % (x, x in s, model))
     if hasattr(s, 'first'):
